@@ -2,6 +2,7 @@
 (with the bound computation inlined): used by C01, C05, C06, C12, C14."""
 from .. import psi
 from ..psi import T, fmt
+from ..summaries import payload
 from . import common
 from .common import Lin, lin_time, time_atom
 
@@ -39,7 +40,7 @@ class ClientModel:
         for n, ef in enumerate(p.effects):
             if ef['kind'] == 'call' and 'clock_gettime' in ef['callee']:
                 cid = ef['args'][0][1] if ef['args'] and psi.is_int_const(ef['args'][0]) else None
-                leaf = T('payload', T('call', ef['callee'], n, *ef['args']), 'Ok')
+                leaf = payload(T('call', ef['callee'], n, *ef['args']), 'Ok')
                 if cid == common.CLOCK_REALTIME and info['real'] is None:
                     info['real'] = leaf
                 elif cid in common.MONOTONIC_FAMILY and info['mono'] is None:
